@@ -623,3 +623,29 @@ func uriInvHeaders(uri []byte, u *PsipURI, s int) bool {
 	e3 := nextEnd(u.Params, e2)
 	return linked(uri, u.Port, e1, ':') && linked(uri, u.Params, e2, ';') && pfZero(u.Headers) && s == e3+1 && uri[e3] == '?'
 }
+
+// ---- token parameters (C17) ----
+
+// mirror of ParseTokenParam's local state enumeration
+const (
+	vpInit uint8 = iota
+	vpName
+	vpFEq
+	vpFVal
+	vpVal
+	vpFSep
+	vpFNxt
+	vpInitNxtVal
+	vpQuotedVal
+	vpERR
+	vpFIN
+)
+
+// ptOK: a token-parameter state the parser itself could have left behind when suspended at offset i
+func ptOK(p *PTokParam, i int) bool {
+	return p.state <= vpFIN && within(p.All, i) && within(p.Name, i) && within(p.Val, i)
+}
+
+func ptWithin(p *PTokParam, hi int) bool {
+	return within(p.All, hi) && within(p.Name, hi) && within(p.Val, hi)
+}
